@@ -373,9 +373,11 @@ func malformed(id int) O {
 		`{"nodes":{"start":{"action":{"interpreter":"ecmascript","source":["a","b"]}}}}`,
 		`{"toob":{"interpreter":"ecmascript","source":null},"nodes":{}}`, `{"errorNode":"oops","noErrorNode":true,"nodes":{"start":{}}}`,
 	}
+	// documents without content: nothing at all, white space, a byte order mark, both
+	docs = append(docs, "", "\n", "  \t\r\n", "\xef\xbb\xbf", "\xef\xbb\xbf\n  ", "\xef\xbb\xbf{}", "# only a comment\n", "---\n", "[]", "\"text\"", "42")
 	doc := docs[rng.Intn(len(docs))]
 	res := T{}
-	for _, kind := range []string{"json", "yaml"} {
+	for _, kind := range []string{"json", "yaml", "sio-file", "sio-file-yaml-name"} {
 		outcome, lerr, cerr, werr := "returned", "", "", ""
 		func() {
 			defer func() {
@@ -385,10 +387,22 @@ func malformed(id int) O {
 			}()
 			var s core.Spec
 			var err error
-			if kind == "json" {
+			switch kind {
+			case "json":
 				err = json.Unmarshal([]byte(doc), &s)
-			} else {
+			case "yaml":
 				err = jyaml.Unmarshal([]byte(doc), &s)
+			default:
+				// the single-loop crew's loader reads the document from a file (and compiles it)
+				f := filepath.Join(malformedDir, map[string]string{"sio-file": "doc.json", "sio-file-yaml-name": "doc.yaml"}[kind])
+				check(os.WriteFile(f, []byte(doc), 0644))
+				var sp *core.Spec
+				_, sp, err = sio.ResolveSpecSource(context.Background(), &crew.SpecSource{URL: "file://" + f})
+				lerr = compileErr(err)
+				if err != nil || sp == nil {
+					return
+				}
+				s = *sp
 			}
 			lerr = compileErr(err)
 			if err != nil {
@@ -410,6 +424,7 @@ func malformed(id int) O {
 
 var exportDir string
 var exportIn *os.File
+var malformedDir string
 
 // merge adds what cmd/mcrew's GetSpec made of each exported YAML file (plain JSON written by the overlay driver) as one
 // more rendering of its case
@@ -597,6 +612,7 @@ func main() {
 	dir, err := os.MkdirTemp("", "verif-loader")
 	check(err)
 	defer os.RemoveAll(dir)
+	malformedDir = dir
 	if exportDir = os.Getenv("LOADER_EXPORT"); exportDir != "" && os.Args[1] == "gen" {
 		check(os.MkdirAll(filepath.Join(exportDir, "specs"), 0755))
 		exportIn, err = os.Create(filepath.Join(exportDir, "getspec_in.ndjson"))
